@@ -2,7 +2,7 @@
    (xprotocol/<proto>/matcher.go, stream/http/stream.go ProtocolMatch, stream/http2/stream.go ProtocolMatch) and
    protocol/api.go SelectStreamFactoryProtocol.  ONLY executable definitions. *)
 From Coq Require Import List NArith Bool.
-From MV Require Import Lib.Bytes Gen.ProtoConsts Gen.CodecSrc.
+From MV Require Import Lib.Bytes Model.CodecParams.
 Import ListNotations.
 Open Scope N_scope.
 
